@@ -4,6 +4,7 @@ pub mod c03;
 pub mod c04;
 pub mod c05;
 pub mod c06;
+pub mod c07;
 pub mod c08;
 pub mod c09;
 pub mod c10;
@@ -17,7 +18,7 @@ pub mod c18;
 use crate::engine::Property;
 
 pub fn all_ids() -> Vec<&'static str> {
-    vec!["C01", "C02", "C03", "C04", "C05", "C06", "C08", "C09", "C10", "C11", "C12", "C14", "C16", "C17", "C18"]
+    vec!["C01", "C02", "C03", "C04", "C05", "C06", "C07", "C08", "C09", "C10", "C11", "C12", "C14", "C16", "C17", "C18"]
 }
 
 pub fn get(id: &str) -> Option<Property> {
@@ -28,6 +29,7 @@ pub fn get(id: &str) -> Option<Property> {
         "C04" => Some(c04::property()),
         "C05" => Some(c05::property()),
         "C06" => Some(c06::property()),
+        "C07" => Some(c07::property()),
         "C08" => Some(c08::property()),
         "C09" => Some(c09::property()),
         "C10" => Some(c10::property()),
